@@ -521,7 +521,12 @@ class Fn:
             return "(" + op.join(self.prop(v) for v in e.values) + ")", "P"
         if isinstance(e, ast.Compare):
             if len(e.ops) != 1:
-                raise Unsupported("chained comparison")
+                # a op1 b op2 c  ==  (a op1 b) and (b op2 c); the operands of the kernels are side-effect free
+                parts, left = [], e.left
+                for op_, right in zip(e.ops, e.comparators):
+                    parts.append(ast.Compare(left=left, ops=[op_], comparators=[right]))
+                    left = right
+                return self.expr(ast.BoolOp(op=ast.And(), values=parts), want)
             l, lt = self.expr(e.left)
             r, rt = self.expr(e.comparators[0])
             if lt == "S" or rt == "S":
